@@ -83,4 +83,103 @@ theorem any_failed_any_isSome (qs : List (ScanMode × QueryRes)) (h : qs.any (fu
     · exact Or.inl (stmtErr_isSome_of_failed p.1 p.2 h)
     · exact Or.inr (ih h)
 
+/-! ### the enclosing context of a write (round 4) -/
+
+theorem runStmts_err_sticky (v : View) (ws : List W) (h : v.err ≠ none) : runStmts v ws = v := by
+  cases ws with
+  | nil => rfl
+  | cons w ws =>
+    cases he : v.err with
+    | none => exact absurd he h
+    | some e => simp [runStmts, he]
+
+/-- statements that all succeed append their rows in order and leave no error -/
+theorem runStmts_allOk (v : View) (ws : List W) (hv : v.err = none)
+    (h : ws.all (fun w => w.fail.isNone) = true) :
+    (runStmts v ws).err = none ∧ (runStmts v ws).rows = v.rows ++ ws.map (·.row) := by
+  induction ws generalizing v with
+  | nil => simp [runStmts, hv]
+  | cons w ws ih =>
+    simp only [List.all_cons, Bool.and_eq_true] at h
+    cases hf : w.fail with
+    | some e => simp [hf] at h
+    | none =>
+      have := ih { v with rows := v.rows ++ [w.row], log := v.log ++ ["S"] } hv h.2
+      simp only [runStmts, hv, hf]
+      rw [hv] at this
+      simpa using this
+
+/-- a wrapper other than `none` restores the rows it saw at its start whenever its body ends with an error -/
+theorem under_protected (wr : Wrap) (v : View) (body : View → View) (hw : wr ≠ .none)
+    (he : (under wr v body).err ≠ none) : (under wr v body).rows = v.rows := by
+  cases wr with
+  | none => exact absurd rfl hw
+  | ownTx =>
+    simp only [under] at he ⊢
+    generalize body { v with log := v.log ++ ["B"] } = r at he ⊢
+    cases hr : r.err with
+    | none => simp [hr] at he
+    | some e => simp
+  | savepoint =>
+    simp only [under] at he ⊢
+    generalize body { v with log := v.log ++ ["SP"] } = r at he ⊢
+    cases hr : r.err with
+    | none => simp [hr] at he
+    | some e => simp
+
+/-- a wrapper never hides the error of its body and never invents one -/
+theorem under_err (wr : Wrap) (v : View) (body : View → View)
+    (hlog : ∀ l, (body { v with log := l }).err = (body v).err) :
+    (under wr v body).err = (body v).err := by
+  cases wr with
+  | none => rfl
+  | ownTx =>
+    simp only [under]
+    have := hlog (v.log ++ ["B"])
+    cases hr : (body { v with log := v.log ++ ["B"] }).err <;> simp [hr] at this ⊢ <;> exact this
+  | savepoint =>
+    simp only [under]
+    have := hlog (v.log ++ ["SP"])
+    cases hr : (body { v with log := v.log ++ ["SP"] }).err <;> simp [hr] at this ⊢ <;> exact this
+
+theorem blockWrap_ne_none (c : Ctx) (hn : c.inTx = true → c.disableNested = false) : blockWrap c ≠ .none := by
+  unfold blockWrap
+  cases hi : c.inTx with
+  | false => simp
+  | true => simp [hn hi]
+
+/-- one pipeline whose statements all succeed: no error, its rows appended -/
+theorem pipeline_allOk (c : Ctx) (v : View) (ws : List W) (hv : v.err = none)
+    (h : ws.all (fun w => w.fail.isNone) = true) :
+    (pipeline c v ws).err = none ∧ (pipeline c v ws).rows = v.rows ++ ws.map (·.row) := by
+  unfold pipeline
+  cases implicitWrap c with
+  | none => exact runStmts_allOk v ws hv h
+  | ownTx =>
+    have := runStmts_allOk { v with log := v.log ++ ["B"] } ws hv h
+    simp only [under]
+    rw [this.1]; exact ⟨rfl, this.2⟩
+  | savepoint =>
+    have := runStmts_allOk { v with log := v.log ++ ["SP"] } ws hv h
+    simp only [under]
+    rw [this.1]; exact ⟨this.1, this.2⟩
+
+theorem runBatches_allOk (c : Ctx) (v : View) (bs : List (List W)) (hv : v.err = none)
+    (h : bs.all (fun b => b.all (fun w => w.fail.isNone)) = true) :
+    (runBatches c v bs).err = none ∧ (runBatches c v bs).rows = v.rows ++ bs.flatten.map (·.row) := by
+  induction bs generalizing v with
+  | nil => simp [runBatches, hv]
+  | cons b bs ih =>
+    simp only [List.all_cons, Bool.and_eq_true] at h
+    have hp := pipeline_allOk c v b hv h.1
+    have := ih (pipeline c v b) hp.1 h.2
+    simp only [runBatches, hp.1]
+    refine ⟨this.1, ?_⟩
+    rw [this.2, hp.2]; simp
+
+/-- a single batch IS one pipeline run -/
+theorem runBatches_single (c : Ctx) (v : View) (b : List W) : runBatches c v [b] = pipeline c v b := by
+  simp only [runBatches]
+  cases (pipeline c v b).err <;> rfl
+
 end Gorm.Stg
